@@ -1,4 +1,5 @@
 import Gsp.Model.Mz
+import Gsp.Lemmas.Rdf
 /-! C01 — merklized entries are exactly the document's facts. Theorems about M2 (`Gsp.Rdf`) and the merklizer wrapper. -/
 namespace Gsp.Props.C01
 open Gsp Gsp.Rdf
@@ -215,6 +216,29 @@ theorem self_reference_rejected (ds : Dataset) (self : Idx) (q : Quad) (g : Stri
   unfold findParent findParentInsideGraph
   simp only [hg, hl, hs, if_true]
   exact ⟨_, rfl⟩
+
+/-! ### sibling indices -/
+
+/-- **Index exactness** (one graph): on success the key of every literal/IRI quad's entry ends with the quad's own
+    predicate when its (subject, predicate, graph) key occurs once in the graph, and otherwise with
+    `nbBefore pre k` - the number of literal/IRI quads of the same key before it. -/
+theorem index_exact (canon : String → Option String) (p : Nat) (ds : Dataset) (rel : Rel) (g : String) (all : List Quad)
+    (es : List Entry) (hall : ds.lookup g = some all) (h : goEntries canon p ds rel g all all 0 [] = .ok es) :
+    es.map (fun e => e.key.getLast?) = (lastSpec all [] all).map some :=
+  goEntries_last canon p ds rel g all hall all [] [] es (by simp) (seenOK_nil all) h
+
+/-- the indices handed out for one key are exactly 0, 1, …, n-1 in quad order: no gap, no repeat, no index on a
+    value that is not there -/
+theorem sibling_indices_consecutive (k : QKey) (all : List Quad) :
+    idxSeq k [] all = List.range (nbBefore all k) := by
+  rw [idxSeq_range k all [], List.range_eq_range']
+  simp [nbBefore]
+
+/-- a key ends with the quad's predicate and its index part; what precedes comes from the parent chain only -/
+theorem key_shape (ds : Dataset) (rel : Rel) (ix : Idx) (idx : Option Nat) (key : List PathPart)
+    (h : path ds rel ix idx = .ok key) :
+    ∃ q up, getQuad ds ix = .ok q ∧ key = up ++ [PathPart.s q.p] ++ idxPart idx :=
+  path_shape ds rel ix idx key h
 
 -- non-vacuity: the documents probed against the real code
 deriving instance DecidableEq for Except
